@@ -165,6 +165,26 @@ def run(ctx):
         ss = [s for s in paths.field_stores(av, "acmod_s", fld) if s["op"] == op]
         ctx.check(s4, len(ss) == 1 and paths.entry_must_pass(av, lambda e: e == ss[0]["node"]), key(av, fld), av.where(av.root), "acmod_advance does not apply `%s%s` exactly once on every path" % (op, fld))
 
+    # ---- S7 reported score belongs to the selected exit -------------------------------------------------
+    s7 = ctx.rule("PAIR.S7-score-of-exit", "in the exit search the best score and the selected entry are updated together under the same conditions, so the reported path score is the score of the entry the hypothesis and segments are traced from", floor=2)
+    fe = fns.get("fsg_search_find_exit")
+    if fe is None:
+        raise AnalysisIncomplete("anchor vanished: fsg_search_find_exit")
+    ctx.touch(fe)
+    bs = [s for s in paths.stores(fe) if s["path"] == "bestscore" and s["rhs"] is not None and not paths.is_const(fe, s["rhs"])]
+    bh = [s for s in paths.stores(fe) if s["path"] == "besthist" and s["rhs"] is not None and not paths.is_const(fe, s["rhs"], -1)]
+    for s in bs:
+        mates = [t for t in bh if paths.same_block(fe, t["node"], s["node"])]
+        ctx.check(s7, len(mates) == 1, key(fe, "score-with-entry"), fe.where(s["node"]), "best score is updated without selecting the entry it belongs to in the same branch: the reported score can come from an entry that is not the one back-traced (segment scores no longer add up to it)")
+    for t in bh:
+        mates = [s for s in bs if paths.same_block(fe, t["node"], s["node"])]
+        tie = paths.guarded(fe, t["node"], lambda fn, cc, pol: paths.rel(fn, cc, pol) in (("bestscore", "==", "hist_entry->score"), ("hist_entry->score", "==", "bestscore")))
+        ctx.check(s7, len(mates) == 1 or tie, key(fe, "entry-with-score:%s" % ("tie" if tie else "better")), fe.where(t["node"]), "an entry is selected without taking its score (and not under score == bestscore)")
+    outs = [s for s in paths.stores(fe) if s["path"] == "*out_score"]
+    ctx.check(s7, len(outs) == 1 and fe.canon(outs[0]["rhs"], subst=False) == "bestscore" and len(bs) >= 1, key(fe, "reported"), fe.where(fe.root), "the score reported is not the best score of the selection loop")
+    from . import c07
+    c07.feat_capacity_rule(ctx, P)
+
     # ---- S6 segment order -----------------------------------------------------------------------------
     s6 = ctx.rule("PROV.S6-order", "the segment list is filled from the back while the back-trace walks from the exit, so iteration is in time order; the iterator hands out hist[cur] for cur = 0, 1, ... and frees itself at n_hist", floor=4)
     f = fns["fsg_search_seg_iter"]
